@@ -33,6 +33,22 @@ def C07 : List (String × String) := [("BaseProposalSelector.getNodes", "434f9eb
   ("BaseProposalSelector.selectFromProposer", "0d30a369ef3a11ec"),
   ("BlockBasedProposerSelector.Select", "52eecbad2e40d1ff")]
 
+def C29 : List (String × String) := [("EnsureRead", "a37a8396188f899f"),
+  ("WriteLengthed", "02f939df4a74b2e6"),
+  ("ReadLengthedBytes", "51db0448790bfa52"),
+  ("ReadLengthBytes", "11a4d63cfc3e28c8"),
+  ("ReadLength", "266c06fe87fa7bb2"),
+  ("ReadLengthed", "975e8e53ea46f032"),
+  ("WriteLengthedSlice", "59eb56db0b853aac"),
+  ("ReadLengthedBytesSlice", "3d96347727d30e3f"),
+  ("ReadLengthedSlice", "8fc916514c061b4e"),
+  ("NewLengthedBytesSlice", "379561ce1d8150c3"),
+  ("BytesFrameWriter.Header", "e7c46cf3c894610b"),
+  ("BytesFrameReader.Header", "b929edb396a275ae"),
+  ("Uint64ToBytes", "0a0a60607eaf1114"),
+  ("uint64ToBytes", "6aa44f15db6b0b9d"),
+  ("BytesToUint64", "b6e4d7a07951de01")]
+
 def C35 : List (String × String) := []
 
 end Mitum.Pins
